@@ -82,6 +82,50 @@ def runStreamSec (rd : Nat → Nat → Except Err Bytes) (sec : Option (Nat → 
 def runStream (rd : Nat → Nat → Except Err Bytes) (size align : Nat) (toks : List String) : String :=
   runStreamSec rd none size align toks
 
+/-- sampled comparison of returned data with the pointwise specification at `start` -/
+def sampleEq (spec : Nat → UInt8) (start : Nat) (b : Bytes) : Bool :=
+  let a := b.toArray
+  let n := a.size
+  if n ≤ 3072 then (List.range n).all fun i => a[i]! == spec (start + i)
+  else
+    let stride := (n - 2048) / 1024 + 1
+    (List.range 1024).all (fun i => a[i]! == spec (start + i)) &&
+    (List.range 1024).all (fun i => a[n - 1 - i]! == spec (start + (n - 1 - i))) &&
+    (List.range 1024).all (fun i => let j := 1024 + i * stride; j ≥ n || a[j]! == spec (start + j))
+
+/-- run a history on the buffered stream over `rd` and on the array specification over the
+    content `spec` side by side; one mark per token: `=` agree, `!` differ (positions, lengths,
+    error-ness, sampled bytes), `?` not comparable (a sector read reaching past the disk) -/
+def checkStreamSpec (rd : Nat → Nat → Except Err Bytes) (sec : Option (Nat → Nat → Except Err Bytes)) (ss : Nat)
+    (spec : Nat → UInt8) (size align : Nat) (toks : List String) : String :=
+  match toks.mapM parseTok with
+  | none => "bad-op"
+  | some ts =>
+    let rec go (s : AS) (sp : Spec) : List Tok → List String
+      | [] => []
+      | .op o :: rest =>
+        let start : Nat := match o with | .readoffset off _ => off.toNat | _ => s.pos
+        let (s', out) := s.step rd o
+        let (sp', eo) := sp.step (fun _ => 0) o
+        match out, eo with
+        | .err, .err => ["="]
+        | .err, _ => ["!"]
+        | .pos a, .pos b => (if a = b then "=" else "!") :: go s' sp' rest
+        | .data b, .data z => (if b.length = z.length && sampleEq spec start b then "=" else "!") :: go s' sp' rest
+        | _, _ => ["!"]
+      | .sectors a c :: rest =>
+        match sec with
+        | none => ["="]
+        | some f =>
+          if (a + c) * ss ≤ size then
+            match f a c with
+            | .ok b => (if b.length = c * ss && sampleEq spec (a * ss) b then "=" else "!") :: go s sp rest
+            | .error _ => ["!"]
+          else match f a c with
+            | .ok _ => "?" :: go s sp rest
+            | .error _ => ["?"]
+    " ".intercalate (go (AS.init size align) ⟨size, 0⟩ ts)
+
 def natArg (s : String) : Except String Nat :=
   match s.toNat? with | some n => .ok n | none => .error s!"bad-nat {s}"
 
